@@ -765,14 +765,17 @@ struct cmb_random_alias *cmb_random_alias_create(const unsigned n,
         }
     }
 
+    /* Columns that keep all their mass: alias to themselves for the 1 in 2^64 */
     while (idxl > 0) {
         const unsigned g = large[--idxl];
         alp->uprob[g] = UINT64_MAX;
+        alp->alias[g] = g;
     }
 
     while (idxs > 0) {
         const unsigned l = small[--idxs];
         alp->uprob[l] = UINT64_MAX;
+        alp->alias[l] = l;
     }
 
     cmi_free(large);
